@@ -15,6 +15,9 @@ from lib import common as C  # noqa: E402
 
 
 def main():
+    import faulthandler
+    # watchdog against hangs inside the machinery itself (subprocesses have their own timeouts)
+    faulthandler.dump_traceback_later(int(os.environ.get("VERIF_WATCHDOG_S", "5400")), exit=True)
     ap = argparse.ArgumentParser()
     ap.add_argument("prop")
     ap.add_argument("--tier", default=os.environ.get("VERIF_TIER", "quick"))
